@@ -912,7 +912,11 @@ fn child_main(args: &[String]) -> ! {
                 let da = allocated() - a0;
                 bump("tzif:cases", 1);
                 peak("tzif:max_parse_seconds", dt);
-                peak("tzif:max_alloc_bytes_per_input_byte", da as f64 / bytes.len().max(1) as f64);
+                if bytes.len() >= 65_536 {
+                    peak("tzif:max_alloc_bytes_per_input_byte(inputs>=64KiB)", da as f64 / bytes.len() as f64);
+                } else {
+                    peak("tzif:max_alloc_bytes(inputs<64KiB)", da as f64);
+                }
                 if dt > time_limit(bytes.len()) {
                     o.viol("TimeZone::tzif/work-not-proportional(time)", &sp.describe(i), &format!("{} bytes took {:.2}s", bytes.len(), dt));
                 }
@@ -1041,7 +1045,11 @@ fn child_main(args: &[String]) -> ! {
                     bump("blowup:cases_1MB", 1);
                 }
                 peak("blowup:max_seconds", dt);
-                peak("blowup:max_alloc_bytes_per_input_byte", da as f64 / bytes.len().max(1) as f64);
+                if bytes.len() >= 65_536 {
+                    peak("blowup:max_alloc_bytes_per_input_byte(inputs>=64KiB)", da as f64 / bytes.len() as f64);
+                } else {
+                    peak("blowup:max_alloc_bytes(inputs<64KiB)", da as f64);
+                }
                 let desc = blow_describe(&ps, b);
                 if dt > time_limit(bytes.len()) {
                     o.viol(&format!("{}/work-not-proportional(time)", p.name), &desc, &format!("{} bytes took {:.2}s", bytes.len(), dt));
